@@ -326,6 +326,50 @@ func (p *progress) classifyLoop(l natLoop) (string, string) {
 			return "scanner", "driven by the trusted scanner's Scan (consumes at least one rune or returns EOF)"
 		}
 	}
+	// the same loop written without a loop variable: every lap passes a call of Scan
+	isScan := func(b *ssa.BasicBlock) bool {
+		for _, in := range b.Instrs {
+			if c, ok := in.(*ssa.Call); ok {
+				if callee := c.Call.StaticCallee(); callee != nil && callee.Name() == "Scan" && callee.Pkg != nil && strings.HasSuffix(callee.Pkg.Pkg.Path(), "scanner") {
+					return true
+				}
+			}
+		}
+		return false
+	}
+	// ... and the loop is left when Scan reports the end of the text: a branch on a comparison of a Scan result
+	// with a constant has a successor outside the loop
+	exitsAtEOF := false
+	for b := range blocks {
+		iff := blockIf(b)
+		if iff == nil {
+			continue
+		}
+		bo, ok := iff.Cond.(*ssa.BinOp)
+		if !ok || (bo.Op != token.EQL && bo.Op != token.NEQ) {
+			continue
+		}
+		if _, isK := bo.Y.(*ssa.Const); !isK {
+			continue
+		}
+		fromScan := false
+		switch x := bo.X.(type) {
+		case *ssa.Call:
+			fromScan = isScan(x.Block()) && x.Call.StaticCallee() != nil && x.Call.StaticCallee().Name() == "Scan"
+		case *ssa.Phi:
+			for _, op := range x.Edges {
+				if c, ok := op.(*ssa.Call); ok && c.Call.StaticCallee() != nil && c.Call.StaticCallee().Name() == "Scan" {
+					fromScan = true
+				}
+			}
+		}
+		if fromScan && (!blocks[b.Succs[0]] || !blocks[b.Succs[1]]) {
+			exitsAtEOF = true
+		}
+	}
+	if exitsAtEOF && everyLapPasses(l, isScan) {
+		return "scanner", "every lap calls the trusted scanner's Scan (consumes at least one rune or returns EOF) and the loop is left on its end-of-text result"
+	}
 	// cut loop: a string phi is replaced on every back-edge by the `after` part of strings.Cut of itself
 	for _, in := range h.Instrs {
 		phi, ok := in.(*ssa.Phi)
